@@ -10,7 +10,7 @@ R = Runner('C03', 'bounded: frames <= 16 x 48, realistic and awkward resolutions
            'quick 60 / thorough 600 round trips')
 rng = R.rng
 ROUTES = ['synthetic', 'loaded-fil', 'loaded-h5', 'copy', 'copy-of-loaded', 'slice', 'slice-of-loaded', 'dedrift', 'dedrift-of-loaded', 'after-get_waterfall', 'slice-after-get_waterfall',
-          'saved-before', 'slice-of-slice-of-loaded', 'loaded-time-selection', 'loaded-frequency-selection', 'slice-of-time-selection']
+          'saved-before', 'retimed-after-get_waterfall', 'copy-of-retimed', 'slice-of-slice-of-loaded', 'loaded-time-selection', 'loaded-frequency-selection', 'slice-of-time-selection']
 k = 0
 for it in range(R.n(60, 600)):
     nch = rng.choice([16, 32, 48])
@@ -66,6 +66,10 @@ for it in range(R.n(60, 600)):
             base.save_fil(p0)
             lo, hi = sorted([base.fs[nch // 4], base.fs[nch // 4 + nch // 2]])
             return stg.Frame(p0, f_start=lo * 1e-6, f_stop=hi * 1e-6)
+        if route in ('retimed-after-get_waterfall', 'copy-of-retimed'):
+            base.get_waterfall()
+            base.t_start = base.t_start + 978.0
+            return base if route == 'retimed-after-get_waterfall' else base.copy()
         if route == 'saved-before':
             base.save_fil(p0)
             base.data[:] = base.data[:, ::-1].copy()
